@@ -35,13 +35,13 @@ def must_see(tier):
 
 def plan(tier, seed):
     specs = []
-    nh = 5 if tier == 'quick' else 60
+    nh = 5 if tier == 'quick' else 500
     for fam in families.FAMILY_NAMES:
         for impl in ('c', 'py'):
             specs.append(dict(label='%s-%s' % (fam, impl), family=fam,
                               impl=impl, histories=nh, seed=seed, tier=tier,
                               variant='mon', timeout=900 if tier == 'quick'
-                              else 3000))
+                              else 7200))
     return specs
 
 
